@@ -30,7 +30,7 @@ FILTERS = ["path_length", "start_end_distance", "cut_percentile_shortest", "trun
            "remove_duplicates", "custom_maze_filter", "collect_generation_meta"]
 THRESHOLDS = {"quick": {**{f"c08:filter:{f}": 100 for f in FILTERS}, "c08:empty-result": 20, "c08:all-kept": 20, "c08:proper-subset": 300,
                         "c08:boundary:all-equal-lengths": 20, "c08:boundary:near-dup-at-thr": 20, "c08:boundary:near-dup-at-thr+1": 20,
-                        "c08:boundary:dup-first-last": 20, "c08:boundary:dup-adjacent": 20, "c08:boundary:dup-other-dtype": 20, "c08:sequences": 100, "c08:generated-big": 12, "c08:from_config-big": 10,
+                        "c08:boundary:dup-first-last": 20, "c08:boundary:dup-adjacent": 20, "c08:boundary:dup-other-dtype": 20, "c08:sequences": 100, "c08:far-endpoints-int8": 4, "c08:custom-metadata": 40, "c08:generated-big": 12, "c08:from_config-big": 10,
                         "c08:from_config": 40, "c08:input-unchanged-checked": 1000, "c08:provenance-checked": 1000}}
 THRESHOLDS["thorough"] = dict(THRESHOLDS["quick"])
 ANCHORS = ["maze_dataset.dataset.maze_dataset:register_maze_filter", "maze_dataset.dataset.dataset:register_dataset_filter",
@@ -364,6 +364,78 @@ def run(ctx):
     _metadata(ctx, 64 if ctx.quick else 600)
     _from_config(ctx, 48 if ctx.quick else 600)
     _generated_big(ctx, 16 if ctx.quick else 160)
+    _far_endpoints_int8(ctx)
+    _custom_metadata(ctx, 24 if ctx.quick else 240)
+
+
+def _far_endpoints_int8(ctx):
+    """large grids (65..120 a side) whose mazes store their coordinates as int8 (what the compact on-disk format hands back) and have
+    endpoints 128 or more steps apart: distance / length filters must compare true distances"""
+    from maze_dataset import MazeDataset, MazeDatasetConfig
+    from maze_dataset.maze.lattice_maze import SolvedMaze
+
+    for j, g in enumerate([72, 100, 120, 65]):
+        if not ctx.mine(j):
+            continue
+        rng = ctx.sub_rng("far", j)
+        cl = ref.full_cl(g, g)
+        items = []
+        for t in range(8):
+            s_ = (int(rng.integers(0, 3)), int(rng.integers(0, 3))) if t % 2 == 0 else (int(rng.integers(g)), int(rng.integers(g)))
+            e_ = (g - 1 - int(rng.integers(0, 3)), g - 1 - int(rng.integers(0, 3))) if t % 2 == 0 else (int(rng.integers(g)), int(rng.integers(g)))
+            # an L-shaped shortest route on the open grid
+            path = [(r, s_[1]) for r in range(s_[0], e_[0], 1 if e_[0] >= s_[0] else -1)] + [(e_[0], c) for c in range(s_[1], e_[1], 1 if e_[1] >= s_[1] else -1)] + [e_]
+            items.append(path)
+        with warnings.catch_warnings():
+            warnings.simplefilter("ignore")
+            def mk():
+                return MazeDataset(MazeDatasetConfig(name=f"far{j}", grid_n=g, n_mazes=len(items)),
+                                   [SolvedMaze(connection_list=cl.copy(), solution=np.array(p, dtype=np.int8)) for p in items])
+            case = dict(key=f"far{j}", mode="far-endpoints-int8", grid_n=g)
+            ctx.tally("c08:far-endpoints-int8")
+            for name, args, kwargs in (("start_end_distance", [1], {}), ("start_end_distance", [128], {}), ("start_end_distance", [], dict(min_distance=g)),
+                                       ("path_length", [129], {}), ("path_length", [2], {}), ("cut_percentile_shortest", [50.0], {})):
+                apply_and_check(ctx, mk(), name, args, kwargs, case, set())
+
+
+def _custom_metadata(ctx, n):
+    """generation metadata as a custom generator may attach it: scalars, coordinates, and coordinate lists in which a cell occurs
+    more than once inside one maze (a walk trace); collect_generation_meta must count every occurrence"""
+    from maze_dataset import MazeDataset, MazeDatasetConfig
+
+    for j in range(n):
+        if not ctx.mine(j):
+            continue
+        rng = ctx.sub_rng("custmeta", j)
+        g = int(rng.integers(2, 6))
+        k = int(rng.integers(1, 7))
+        items, metas = [], []
+        for t in range(k):
+            cl = ref.random_spanning_tree(g, g, rng)
+            gr = Graph(cl)
+            path = gr.shortest_path((0, 0), (g - 1, g - 1))
+            walk = [(0, 0)]
+            for _ in range(int(rng.integers(3, 14))):
+                nb = gr.adj[walk[-1]]
+                walk.append(nb[int(rng.integers(len(nb)))])          # a random walk: revisits cells
+            meta = dict(func_name="custom", grid_shape=np.array([g, g]), start_coord=np.array(walk[0]), flag=bool(t % 2), level=int(t % 3),
+                        walk_trace=np.array(walk) if t % 2 else [tuple(c) for c in walk], fully_connected=True)
+            items.append((cl, path)); metas.append(meta)
+        with warnings.catch_warnings():
+            warnings.simplefilter("ignore")
+            for inplace in (False, True):
+                ds = MazeDataset(MazeDatasetConfig(name=f"cm{j}", grid_n=g, n_mazes=k),
+                                 [lib.solved(cl, p, meta={kk: (vv.copy() if isinstance(vv, np.ndarray) else (list(vv) if isinstance(vv, list) else vv)) for kk, vv in m.items()})
+                                  for (cl, p), m in zip(items, metas)])
+                exp = _ref_collect(metas)
+                case = dict(key=f"cm{j}", mode="custom-metadata", inplace=inplace, grid_n=g, n=k)
+                with ctx.guard("C08/collect_generation_meta", case):
+                    out = ds.filter_by.collect_generation_meta(inplace=inplace)
+                    ctx.ev(); ctx.tally("c08:filter:collect_generation_meta"); ctx.tally("c08:custom-metadata")
+                    got = out.generation_metadata_collected
+                    norm = lambda d: {str(kk): {str(a): int(b) for a, b in v.items()} for kk, v in d.items()}  # noqa: E731
+                    ctx.check(got is not None and norm(got) == norm(exp), "C08/collect_generation_meta/counts-wrong",
+                              lambda: "; ".join(f"{kk}: got {str(norm(got).get(kk))[:150]} expected {str(v)[:150]}" for kk, v in norm(exp).items() if norm(got).get(kk) != v)[:800], case)
 
 
 def _generated_big(ctx, n):
